@@ -66,7 +66,7 @@ CLAIMED = {
    ref="DESIGN.md §4 C19"),
  "C04": dict(
    text="Scanner only: every function of parser/scanner.go (NewScanner, Scan, next, peek, error, skipWhitespace, scanIdentifier, scanDigits, scanNumber, scanEscape, scanRune, scanString, scanRawString, scanComment, findLineEnd, StripCR, switch2/3/4) is proved free of index, slice, nil and explicit-panic failures for all sources under one representation invariant (the current character occupies src[offset:readOffset], the file's extent equals the source), and Scan is proved to make progress: at a character, a call moves the offset forward or clears the pending-semicolon flag without moving back - the measure that bounds the parser's loops.",
-   note="Parser and compiler totality (no panic for arbitrary token streams / syntax trees, error-count bailout, recursion depth) are not covered: Compile's safety obligations need a syntax-tree well-formedness invariant that is not written yet. Termination of the scanner's inner loops follows from next()'s progress clause by a meta-argument, not by a checked decreases clause. SourceFile.Position/AddLine and the error handler callback are frame-only (unverified bodies). KNOWN WEAKNESS (DESIGN.md 8.9): in functions marked `private s` the committed engine keeps the scanner's own memory across contracted callees that declare `assigns *`, so obligations that lie after the first such call on a path (in particular the rep/progress postconditions of Scan, scanNumber, scanComment, findLineEnd) are discharged under contradictory hypotheses and must be read as not established; safety obligations before that point are unaffected. The sound fix is written (engine/pending_private_havoc.patch) but not applied because three scanner obligations then need stronger contracts.",
+   note="Parser and compiler totality (no panic for arbitrary token streams / syntax trees, error-count bailout, recursion depth) are not covered: Compile's safety obligations need a syntax-tree well-formedness invariant that is not written yet. Termination of the scanner's inner loops follows from next()'s progress clause by a meta-argument, not by a checked decreases clause. SourceFile.Position/AddLine and the error handler callback are frame-only (unverified bodies). Two entry facts are assumed, not proved (listed in the evidence): findLineEnd's `the byte before the offset is /` and scanComment's `the current character is / or *` after findLineEnd - the representation invariant does not yet relate s.ch to the source bytes (DESIGN.md 8.9, which also records a vacuity hole of the engine found and fixed: private memory was kept across callees that receive it).",
    ref="DESIGN.md §4 C04, 8.9"),
  "C03": dict(
    text="Three clauses of the dead-code pass, each proved on the real code for all inputs: the closure of pass 1 marks the target of every jump kind (JMP, JMPF, ANDJMP, ORJMP) as a jump destination; the closure of pass 3 re-targets every jump kind whose target is in the position map to the mapped offset (all four operand bytes); the source-map loop of pass 4 moves the entry of every kept instruction to the instruction's new offset.",
